@@ -1,6 +1,6 @@
 use super::{Lint, LintKind, Linter};
 use crate::TokenStringExt;
-use crate::{Document, Span};
+use crate::Document;
 
 /// Detect and warn that the sentence is too long.
 #[derive(Debug, Clone, Copy, Default)]
@@ -15,7 +15,7 @@ impl Linter for LongSentences {
 
             if word_count > 40 {
                 output.push(Lint {
-                    span: Span::new(sentence[0].span.start, sentence.last().unwrap().span.end),
+                    span: sentence.span().unwrap(),
                     lint_kind: LintKind::Readability,
                     message: format!("This sentence is {} words long.", word_count),
                     ..Default::default()
